@@ -2,7 +2,7 @@
 
 TLC: ProxyServer.tla, ShutdownCompletes under fairness, NotServedAfterCancel, ServeReturnsClosed, ReturnedMeansDrained.
 Binding: state construction + replay: for each constructed state at the instant of cancel (nothing / before the first accept / idle h1+h2+no-ALPN /
-stalled handshakes / mixed / repeated cancel / the gated hand-off race) the real server is cancelled; return value, listener state, fate of a late
+stalled handshakes / mixed / repeated cancel / the gated hand-off race / an HTTP/1.1 exchange in flight with late clients of every protocol during the drain) the real server is cancelled; return value, listener state, fate of a late
 connection and latency class are compared with the specification; the hook trace is validated as well.
 """
 import lccommon as lc
@@ -31,12 +31,16 @@ def run(ctx):
         elif lat > PROMPT_S:
             ctx.violation({'check': 'C17', 'kind': 'serve_returned_late', 'variant': sc.get('variant')},
                           'scenario %s: Serve returned %.2fs after cancel with no HTTP/1.1 exchange in flight' % (sc['name'], lat), sc)
+        if sc.get('variant') == 'active':
+            if sc.get('returned_before_drain'):
+                ctx.violation({'check': 'C17', 'kind': 'returned_before_drain', 'variant': 'active'}, 'scenario %s: Serve returned while an HTTP/1.1 exchange was still in flight' % sc['name'], sc)
         if sc.get('late_connection_served'):
             ctx.violation({'check': 'C17', 'kind': 'served_after_cancel', 'variant': sc.get('variant')}, 'scenario %s: a connection attempted after shutdown was served' % sc['name'], sc)
         if not sc.get('late_dial_refused'):
             ctx.violation({'check': 'C17', 'kind': 'listener_still_open', 'variant': sc.get('variant')}, 'scenario %s: dial succeeded after Serve returned' % sc['name'], sc)
     cov = {'traces_validated_against_impl': len(accepted), 'samples': [{'trace_prefix': lc.sample_trace(lines)}],
            'shutdown_states_constructed': nshut,
+           'active_exchange_scenario': [{k: s.get(k) for k in ('name', 'slow_exchange', 'late_during_drain', 'returned_before_drain')} for s in report if s.get('variant') == 'active'],
            'latencies_s': {s['name']: (s.get('latency') or {}).get('serve_return_s') for s in report if s['family'] == 'shutdown'},
            'rule': 'one scenario per constructed state at cancel; plus every other scenario ends with a cancellation whose return value is checked'}
-    return ctx.finish(cov, assumptions=['latency class "prompt" = 2 s (measured: < 10 ms)', 'an HTTP/1.1 exchange held open across cancel is covered in the thorough tier'])
+    return ctx.finish(cov, assumptions=['latency class "prompt" = 2 s (measured: < 10 ms)', 'variant active: one HTTP/1.1 exchange held open across cancel by a gated backend; late h2 / http/1.1 / no-ALPN clients during the drain'])
